@@ -349,7 +349,7 @@ class Check:
         for kid, f in self.known_hit.items():
             k = [k for k in known if k["id"] == kid][0]
             kf_lines.append(f"KNOWN-FINDING: property={self.prop} {k['what']} [{kid}] e.g. {json.dumps(jsonable(f['inputs']))[:200]}")
-        rdir = os.path.join(VERIF, "replays", self.prop); os.makedirs(rdir, exist_ok=True)
+        rdir = os.path.join(os.environ.get("VERIF_REPLAY_DIR", os.path.join(VERIF, "replays")), self.prop); os.makedirs(rdir, exist_ok=True)
         seen_sig = set()
         for f in new_findings:
             sig = (f["entry_point"], f["predicate"])
@@ -406,8 +406,9 @@ class Check:
         cov["broken"] = jsonable(self.broken)[:10]
         ev = dict(property_id=self.prop, tier=self.tier, seed=self.seed, level=self.level, coverage=cov,
                   assumptions=self.assumptions, wall_s=round(time.time() - self.t0, 2), violations=nviol)
-        os.makedirs(os.path.join(VERIF, "evidence"), exist_ok=True)
-        with open(os.path.join(VERIF, "evidence", f"{self.prop}.json"), "w") as f:
+        evdir = os.environ.get("VERIF_EVIDENCE_DIR", os.path.join(VERIF, "evidence"))
+        os.makedirs(evdir, exist_ok=True)
+        with open(os.path.join(evdir, f"{self.prop}.json"), "w") as f:
             json.dump(jsonable(ev), f, indent=1, sort_keys=True)
 
 
